@@ -230,11 +230,23 @@ def generate(ctx: Ctx):
 class Real:
     """the real objects plus the harness's own bookkeeping of what was configured (for the oracle)"""
 
-    def __init__(self, cap=None, make_tc=None):
+    def __init__(self, cap=None, make_tc=None, dispatcher=False):
         k = K()
         self.k = k
         self.log = []
-        self.inner = k.RecEndpoint(self.log)
+        self.my_peer = k.Peer(k.keys[0])
+        if dispatcher:
+            # what ipv8_service builds by default: a dual-stack DispatcherEndpoint; its two sockets are recorders
+            from ipv8.messaging.interfaces.dispatcher.endpoint import DispatcherEndpoint
+            self.inner = DispatcherEndpoint([])
+            self.inner.interfaces = {"UDPIPv4": k.RecEndpoint(self.log), "UDPIPv6": k.RecEndpoint(self.log)}
+            self.inner.interface_order = ["UDPIPv4", "UDPIPv6"]
+            self.inner._preferred_interface = self.inner.interfaces["UDPIPv4"]
+            self.reg = self.inner.interfaces["UDPIPv4"]      # listeners are registered with every interface alike
+        else:
+            self.inner = k.RecEndpoint(self.log)
+            self.reg = self.inner
+        self.dispatcher = dispatcher
         self.ep = k.TunnelEndpoint(self.inner)
         q = getattr(self.ep, "send_queue", None)
         self.bound = q.maxlen if isinstance(q, deque) else None
@@ -529,7 +541,7 @@ class Real:
             made = []
 
             def construct():
-                tc = k.LifeTC(self.log, k.TunnelSettings(my_peer=k.my_peer, endpoint=self.ep, network=k.Network()))
+                tc = k.LifeTC(self.log, k.TunnelSettings(my_peer=self.my_peer, endpoint=self.ep, network=k.Network()))
                 tc.cancel_pending_task("do_circuits")
                 tc.cancel_pending_task("do_ping")
                 made.append(tc)
@@ -579,7 +591,7 @@ class Real:
             made = []
 
             def construct():
-                made.append(cls(k.CommunitySettings(my_peer=k.my_peer, endpoint=self.ep, network=k.Network(),
+                made.append(cls(k.CommunitySettings(my_peer=self.my_peer, endpoint=self.ep, network=k.Network(),
                                                     anonymize=want)))
             reply = self.quiet("Community.__init__", construct)
             if made:
@@ -674,6 +686,26 @@ class Real:
                                                        network=k.Network()))
                 self.helpers.append(peer_ov)
                 ov.on_packet((k.dest[a], peer_ov.create_puncture_request(k.dest[1], k.dest[a], byte)))
+            elif how == "intro_resp":
+                # a (new-style) introduction response arrives; `byte` picks the variant: the responder advertises a WAN
+                # address of another address family (the "switch interfaces" branch sends a puncture request) and/or
+                # introduces a third peer (a puncture request / walk goes to the introduced address)
+                from ipv8.messaging.interfaces.udp.endpoint import UDPv4Address, UDPv6Address
+                remote = type(ov)(k.CommunitySettings(my_peer=k.Peer(k.keys[2]), endpoint=k.RecEndpoint([]),
+                                                      network=k.Network()))
+                self.helpers.append(remote)
+                src = UDPv4Address(*k.dest[a])
+                if byte & 1:
+                    remote.my_estimated_wan = UDPv6Address("2001:db8::9", 9000)
+                    remote.my_estimated_lan = UDPv4Address("192.168.1.9", 9000)
+                    ov.my_peer.address = UDPv6Address("2001:db8::1", 7000)    # an own address of that family is known
+                if byte & 2:
+                    third = k.Peer(k.keys[3].pub(), UDPv4Address(*k.dest[(a + 1) % 6]))
+                    remote.network.add_verified_peer(third)
+                    remote.network.discover_services(third, [ov.community_id])
+                response = remote.create_introduction_response(UDPv4Address("127.0.0.1", 7000), src, 1 + byte,
+                                                               new_style=bool(byte & 1) or bool(byte & 4))
+                ov.on_packet((src, response))
             elif how == "bootstrap":
                 # a UDPBroadcastBootstrapper announces the overlay on the LAN from a socket of its own, on the node's
                 # address: nothing of an anonymized overlay may go out that way
@@ -733,9 +765,9 @@ class Real:
             hops = ";".join(f"{k.rhop.get(h.peer.address, '?')}:[{','.join(map(str, h.flags or []))}]" for h in c._hops)
             circ.append(f"{c.circuit_id}/{c.goal_hops}/{k.CT.index(c.ctype)}/{'1' if c._closing else '0'}/<{hops}>")
         lis = [f"{l.lid}:" + ("none" if not hasattr(l, "anonymize") else ("1" if l.anonymize else "0"))
-               for l in self.inner._listeners if hasattr(l, "lid")]
+               for l in self.reg._listeners if hasattr(l, "lid")]
         plis = sorted({f"{l._c07_lid}:{hx(pfx)}:" + ("none" if not hasattr(l, "anonymize") else ("1" if l.anonymize else "0"))
-                       for pfx, lst in (self.plis_src or self.ep.endpoint)._prefix_map.items() for l in lst
+                       for pfx, lst in (self.plis_src or (self.reg if self.dispatcher else self.ep.endpoint))._prefix_map.items() for l in lst
                        if hasattr(l, "_c07_lid")})
         return (f"cap={ep.send_queue.maxlen} hops={ep.hops} att={'1' if ep.tunnel_community is not None else '0'} "
                 f"can={'1' if tc.can_create else '0'} fail={'none' if tc.fail_after is None else tc.fail_after} set=[{','.join(sets)}] q=[{','.join(q)}] "
@@ -943,7 +975,7 @@ def run_history(ctx: Ctx, real: Real, ops_iter, lines, expect, record):
 def report_fail(ctx: Ctx, real: Real, record, cap, where):
     sig, what = real.fail
     ctx.oracle_fail(sig, f"{what} [after {len(record)} ops, {where}]",
-                    {"kind": "ops", "cap": cap, "ops": [op_to_json(o) for o in record]})
+                    {"kind": "ops", "cap": cap, "dispatcher": real.dispatcher, "ops": [op_to_json(o) for o in record]})
 
 
 def random_tier(ctx: Ctx, n_seq: int, use_model: bool, max_depth: int = 200):
@@ -1161,7 +1193,9 @@ def overlay_tier(ctx: Ctx, n_scen: int, use_model: bool):
         ctx.disagree("TunnelCommunity.community_id changed", {"line": "tcinit"})
     lines, expect, histories = [], [], []
     for s in range(n_scen):
-        real = Real()
+        on_dispatcher = s % 2 == 1
+        ctx.count("overlay:wrapped endpoint is a %s" % ("dual-stack DispatcherEndpoint" if on_dispatcher else "single endpoint"))
+        real = Real(dispatcher=on_dispatcher)
         record = []
         lines.append("reset -")
         expect.append("ok")
@@ -1209,7 +1243,8 @@ def overlay_tier(ctx: Ctx, n_scen: int, use_model: bool):
                     break
                 if r < 0.5:
                     i = rng.choice(live)
-                    how = rng.choice(["walk_to", "puncture", "raw", "send_intro", "respond", "ez_send", "punct_req"]
+                    how = rng.choice(["walk_to", "puncture", "raw", "send_intro", "respond", "ez_send", "punct_req",
+                                      "intro_resp", "intro_resp"]
                                      + ["bootstrap"] * (rng.random() < 0.08))
                     ctx.count("overlay-send:" + how + (":anonymized" if real.overlays[i][1] else ":plain"))
                     do_emit(ctx, real, ("emit", i, how, rng.randrange(0, 6), rng.randrange(256)), lines, expect, record)
@@ -1649,7 +1684,7 @@ def replay(ctx: Ctx, rec: dict):
         if len(ctx.failures) == n0:
             ctx.case(("replay",), True)
         return
-    real = Real(r.get("cap"))
+    real = Real(r.get("cap"), dispatcher=bool(r.get("dispatcher")))
     ops = [op_from_json(j) for j in r.get("ops", [])]
     out = []
     for op in ops:
